@@ -63,3 +63,53 @@ func ZZVerifC03RoundTrip() {
 	}
 	rt.Reach("end")
 }
+
+// ZZVerifC03ReadFrameRobust: ReadFrame over an arbitrary buffer never panics, never allocates more than the
+// 1 GB cap, and on success returns exactly the bytes after the header whose CRC matches the stored one.
+func ZZVerifC03ReadFrameRobust() {
+	rt.AllocLimit(MaxPayloadSize)
+	n := rt.IntRange("len", 0, rt.Param("BUF", 13))
+	buf := rt.Bytes("buf", n)
+	payload, size, err := ReadFrame(bytes.NewReader(buf))
+	if err == nil {
+		rt.Reach("ok")
+		rt.Assert(n >= HeaderSize && buf[0] == MagicByte, "ReadFrame: success only on a buffer that starts with the frame marker")
+		rt.Assert(size == HeaderSize+len(payload) && size <= n, "ReadFrame: consumed size is header + payload and lies inside the input")
+		for i := range payload {
+			rt.Assert(payload[i] == buf[HeaderSize+i], "ReadFrame: payload is the bytes following the header")
+		}
+	} else {
+		rt.Assert(payload == nil, "ReadFrame: no payload is returned with an error")
+	}
+	rt.Reach("end")
+}
+
+// ZZVerifC03ParseRobust: ParseCommand over an arbitrary buffer never panics and never allocates beyond its caps.
+func ZZVerifC03ParseRobust() {
+	rt.AllocLimit(MaxPayloadSize)
+	n := rt.IntRange("len", 0, rt.Param("BUF", 8))
+	buf := rt.Bytes("buf", n)
+	cmd, err := ParseCommand(bufio.NewReader(bytes.NewReader(buf)))
+	if err == nil {
+		rt.Reach("ok")
+		rt.Assert(cmd != nil && len(cmd.Name) <= n, "ParseCommand: a parsed command is made of input bytes")
+	}
+	rt.Reach("end")
+}
+
+// ZZVerifC03FrameRoundTrip: WriteFrame then ReadFrame returns the payload byte for byte and consumes exactly
+// header + payload (CRC-32 is an uninterpreted function of the payload).
+func ZZVerifC03FrameRoundTrip() {
+	n := rt.IntRange("len", 0, rt.Param("PAYLOAD", 4))
+	p := rt.Bytes("payload", n)
+	var b bytes.Buffer
+	rt.Assert(NewFrameWriter(&b).WriteFrame(p) == nil, "WriteFrame succeeds")
+	out := b.Bytes()
+	rt.Assert(len(out) == HeaderSize+n && out[0] == MagicByte, "WriteFrame: header + payload, starting with the marker")
+	got, size, err := ReadFrame(bytes.NewReader(out))
+	rt.Assert(err == nil && size == HeaderSize+n && len(got) == n, "ReadFrame accepts WriteFrame output")
+	for i := range got {
+		rt.Assert(got[i] == p[i], "frame round trip: payload bytes preserved")
+	}
+	rt.Reach("end")
+}
